@@ -397,32 +397,22 @@ def u1new : Schema :=
   { fields := [idEntry, ⟨"d", .option (.map [(.text "x", .option .i64)]), false, 1⟩], version := 2, nextIdx := 2 }
 def udoc : Doc := [(0, .u64 1), (1, .map [(.text "x", .text "a")])]
 
-/-- The full single-step statement is false in the code (finding F5): `is_compatible_upgrade_of`
-treats the untyped map `Map({})` as a keyed map with no keys, so the new schema may "gain optional
-keys" on it; an entry written under the untyped map is then validated against the new key's type. -/
-theorem upgrade_preserves_counterexample : ¬ upgrade_preserves_full := by
-  intro h
-  have hwf : SchemaWF u0 := ⟨by decide, by decide⟩
-  have hup : Schema.upgradeWith u1new u0 = some { u1new with nextIdx := 2 } := by rfl
-  obtain ⟨r, hr, ht⟩ := h fm0 u1new u0 _ udoc fm0_lawful hwf (by decide) hup
-    (by
-      intro e he
-      simp only [udoc, List.mem_cons, List.not_mem_nil, or_false] at he
-      rcases he with rfl | rfl
-      · exact ⟨idEntry, by simp [u0], rfl, by decide, by decide, by decide⟩
-      · exact ⟨⟨"d", .option (.map []), false, 1⟩, by simp [u0], rfl, by decide, by decide, by decide⟩)
-    (by
-      intro f hf hreq
-      simp only [u0, List.mem_cons, List.not_mem_nil, or_false] at hf
-      rcases hf with rfl | rfl
-      · exact ⟨(0, .u64 1), by simp [udoc], rfl⟩
-      · simp [FieldEntry.required, FieldType.allowsNull] at hreq)
-  have hr' : Doc.storeDecode fm0 udoc = some udoc := by rfl
-  rw [hr'] at hr
-  cases hr
-  have : tryFromDoc fm0 { u1new with nextIdx := 2 } udoc = none := by rfl
-  rw [this] at ht
-  cases ht
+/-- Regression for finding F5 (fixed in the code by commit 0e46ab3, and in this model with it): the
+untyped map `Map({})` may not be narrowed to an explicitly keyed map — `is_compatible_upgrade_of`
+refuses it and so does `upgrade_with`. -/
+theorem untyped_map_narrowing_refused :
+    compatible (.option (.map [(.text "x", .option .i64)])) (.option (.map [])) = false ∧
+      (Schema.upgradeWith u1new u0).isNone = true ∧
+      -- the harmless direction (keyed → untyped) stays permitted
+      compatible (.option (.map [])) (.option (.map [(.text "x", .option .i64)])) = true := by
+  decide
+
+/-- Why the pre-fix rule (an empty old map counted as "no keys yet") was wrong: had the upgrade
+been accepted, a document that is valid under `u0` would be rejected under the new schema. -/
+theorem untyped_map_narrowing_prefix_rule_breaks_documents :
+    (match tryFromDoc fm0 u0 udoc with | some _ => true | none => false) = true ∧
+      (match tryFromDoc fm0 { u1new with nextIdx := 2 } udoc with | some _ => true | none => false) = false := by
+  decide
 
 /-- Proved part: upgrades that leave the types of the surviving fields as they are (add / remove /
 re-add of top-level fields). The nested-struct evolution (`compatible` with gained optional keys and
